@@ -37,6 +37,7 @@ from valjean.javert import representation as rpr
 from valjean.javert import templates as tmpl
 from valjean.javert.rst import Rst, RstTable
 from valjean.javert.templates import TableTemplate
+from valjean.javert.test_report import TestReport
 from valjean.javert.verbosity import Verbosity
 
 from vlib.core import Failure, Outcome, HarnessError, valjean_frame
@@ -119,9 +120,9 @@ NAMES = ['ref', 'calc', 't4', 'ap3', 'mc', 'dsA', 'run2', 'base']
 DS_KINDS = ['equal', 'approx', 'student', 'bonferroni', 'holm']
 STATUSES = ['WAITING', 'PENDING', 'DONE', 'FAILED', 'SKIPPED']
 LABELS = ['a', 'b', 'c']
-LABEL_VALUES = ['x', 'y', 'z']
+LABEL_VALUES = ['x', 'y', 'z', 'z ', 'two words']
 MD_KEYS = ['k0', 'k1', 'k2', 'k3', 'k4']
-MD_VALUES = ['v', 'w', 'u7', 1, 2, 2.5, True]
+MD_VALUES = ['v', 'w', 'u7', 1, 2, 2.5, True, 'v ', 'two words']
 NUM_FMT = '{:11.6g}'
 DESCR = 'description of the test'
 _KO = re.compile(r'\bKO\b')
@@ -724,6 +725,33 @@ def _run_rendering(case, out):
         out.labels.append('has-table')
     out.info = {'text': text[-600:]}
 
+    # ---- the result inside a report, formatted twice by the SAME Rst object (an object may
+    # format several reports one after the other): every page of the second report must be
+    # the page of the first one, and the page holding the result must hold its rendering
+    try:
+        rst = Rst(representation)
+        report = TestReport(title='main', content=[TestReport(title='section', content=[result])])
+        pages = [dict((k, list(v)) for k, v in
+                      rst.format_report(report=report, author='a', version='0').text_dict.items())
+                 for _ in range(2)]
+    except Exception as exc:
+        out.failures.append(Failure(
+            'render_raises', _raise_signature(exc, sigkind + '/in-report'),
+            f'{type(exc).__name__}: {exc}'[:300] + f' at {_where(exc)} [format_report]'))
+    else:
+        out.labels.append('formatted-in-two-reports')
+        page = '\n'.join(pages[0].get(('section',), []))
+        if text and text not in page:
+            out.failures.append(Failure(
+                'report_page', f'C12/report_page/first-report/{feat}',
+                'the page of the section does not hold the rendering of its result'))
+        elif pages[1] != pages[0]:
+            diff = [k for k in pages[0] if pages[1].get(k) != pages[0][k]]
+            out.failures.append(Failure(
+                'report_page', f'C12/report_page/second-report-differs/{feat}',
+                f'second report formatted by the same Rst object: page(s) {diff} differ from '
+                f'those of the first report'))
+
     # ---- validity
     if parsed.messages:
         level, msg = parsed.messages[0]
@@ -823,7 +851,8 @@ def _check_metadata_table(case, table, out):
     for row in table['rows']:
         key = row[0][0]
         for name, (text, hlt) in zip(heads[1:], row[1:]):
-            want = str(dmd[name][key]) if key in dmd[name] else 'MISSING'
+            # (a table cell cannot show leading or trailing blanks)
+            want = str(dmd[name][key]).strip() if key in dmd[name] else 'MISSING'
             ref = dmd[refname].get(key, 'MISSING')
             differs = (dmd[name].get(key, 'MISSING') != ref
                        if not (key not in dmd[name] and key not in dmd[refname]) else False)
